@@ -57,6 +57,13 @@ type vfCfg struct {
 	knownRename bool
 }
 
+// vfGlobalBase is the goroutine count of the test process before the first
+// case started anything; every case waits for the count to come back to it
+// before taking its own baseline, so that goroutines left over from the
+// previous case (its watchdog, a late background write) cannot inflate the
+// baseline and make settle() return early.
+var vfGlobalBase = -1
+
 type vfMachine struct {
 	t        *rapid.T
 	cfg      vfCfg
@@ -75,6 +82,7 @@ type vfMachine struct {
 	failedSv int
 	steps    int
 	beat     int64
+	noSettle bool // baseline could not be established: never claim "settled"
 }
 
 func (m *vfMachine) logf(format string, args ...interface{}) {
@@ -279,6 +287,12 @@ func (m *vfMachine) allFileNodes() []*filenode {
 // settle waits until no background write goroutine is left. It returns false
 // if that could not be established (never an error by itself).
 func (m *vfMachine) settle() bool {
+	if m.noSettle {
+		for _, fn := range m.allFileNodes() {
+			fn.waitPrune()
+		}
+		return false
+	}
 	for _, fn := range m.allFileNodes() {
 		fn.waitPrune()
 	}
@@ -1267,7 +1281,6 @@ func vfRunMachine(t *rapid.T, cfg vfCfg) {
 			m.label("fault-only-during-save")
 		}
 	}
-	m.baseGo = runtime.NumGoroutine()
 	fs, err := (&Collection{ManifestText: txt, UUID: cfg.uuid}).FileSystem(store, store)
 	if err != nil {
 		t.Fatalf("VERIF-INFRA: generated manifest does not load: %v\n%q", err, txt)
@@ -1278,9 +1291,26 @@ func vfRunMachine(t *rapid.T, cfg vfCfg) {
 
 	// watchdog: an in-memory filesystem call that does not return within two
 	// minutes is a hang (e.g. a lock taken twice), not slowness.
+	if vfGlobalBase < 0 {
+		vfGlobalBase = runtime.NumGoroutine()
+	} else {
+		deadline := time.Now().Add(5 * time.Second)
+		for runtime.NumGoroutine() > vfGlobalBase && time.Now().Before(deadline) {
+			time.Sleep(200 * time.Microsecond)
+		}
+		if runtime.NumGoroutine() > vfGlobalBase {
+			m.noSettle = true
+			m.label("baseline-not-established")
+		}
+	}
 	stopDog := make(chan struct{})
-	defer close(stopDog)
+	dogDone := make(chan struct{})
+	defer func() {
+		close(stopDog)
+		<-dogDone
+	}()
 	go func() {
+		defer close(dogDone)
 		last, lastChange := int64(-1), time.Now()
 		for {
 			select {
@@ -1300,7 +1330,7 @@ func vfRunMachine(t *rapid.T, cfg vfCfg) {
 			}
 		}
 	}()
-	m.baseGo = runtime.NumGoroutine() // includes the watchdog
+	m.baseGo = vfGlobalBase + 1 // the watchdog
 	after := func() {
 		atomic.AddInt64(&m.beat, 1)
 		m.steps++
